@@ -13,6 +13,7 @@ NEUTRALS = []
 
 # changes made by sub-agents that were given only the property text (see /verif/seeded/<id>/): each must stay reported
 SEEDED = [
+    {'name': 'seeded change C11-r5a', 'seed': 'C11-r5a', 'expect': '|READ|'},
     {'name': 'seeded change C11-r4b', 'seed': 'C11-r4b', 'expect': '|GLOBAL-leak|'},
     {'name': 'seeded change C11-r4a', 'seed': 'C11-r4a', 'expect': '|TIE-all|'},
     {'name': 'seeded change C11-r3', 'seed': 'C11-r3', 'expect': '|READ|'},
